@@ -220,7 +220,7 @@ def run_case(case):
             except (ValueError, KeyError, IndexError) as e:
                 bad("client-cannot-parse", op, f"{op} raised {type(e).__name__}: {e!r}")
             await asyncio.sleep(1)
-            await asyncio.wait_for(server.close(), 1e4)
+            await common.close_server(server)
 
         world.run(main())
         gc.collect()
